@@ -1994,9 +1994,25 @@ impl ParserState {
                     // if item.start_pos() == curr_idx, then we handled it below in the nullable check
 
                     // The main completion inference rule (slide 21 in Kallmeyer 2018)
+                    // In parametric grammars, only the items that predicted 'lhs'
+                    // with the parameter of the completed item can be advanced.
+                    let completed_param = if self.scratch.parametric {
+                        Some(self.scratch.item_args[item_idx])
+                    } else {
+                        None
+                    };
                     for i in self.rows[item.start_pos()].item_indices() {
                         let item = self.scratch.items[i];
                         if self.grammar.sym_idx_dot(item.rhs_ptr()) == lhs {
+                            if let Some(param) = completed_param {
+                                let param_dot = self
+                                    .grammar
+                                    .param_value_dot(item.rhs_ptr())
+                                    .eval(self.scratch.item_args[i]);
+                                if param_dot != param {
+                                    continue;
+                                }
+                            }
                             self.scratch.add_unique(item.advance_dot(), i, "complete");
                         }
                     }
